@@ -6,6 +6,7 @@ package c10
 // engine trace sink that records the verif trace hook as NDJSON.
 
 import (
+	"strconv"
 	"context"
 	"crypto/sha256"
 	"encoding/binary"
@@ -72,9 +73,55 @@ func bigTXT(name string, i int) string {
 	return sb.String()[:bigTXTChunk]
 }
 
+// exactBody is N for a name "e<N>-...": the TXT answer of such a name makes the whole reply (no OPT, owner
+// compressed against the question) exactly N bytes long, so that scripted frames can land on, one below and
+// one or two bytes beyond what is left of the drain buffer.
+func exactBody(name string) int {
+	if !strings.HasPrefix(name, "e") {
+		return 0
+	}
+	i := strings.IndexByte(name, '-')
+	if i < 2 {
+		return 0
+	}
+	n, err := strconv.Atoi(name[1:i])
+	if err != nil {
+		return 0
+	}
+	return n
+}
+
+func exactTXT(name string, n int) []dns.RR {
+	// header 12, question wire-name + 4, one RR: pointer 2 + type/class/ttl/rdlen 10, rdata = chunks (1 + len each)
+	wl := len(name) + 1
+	if name == "." {
+		wl = 1
+	}
+	r := n - 12 - (wl + 4) - 12
+	if r < 1 {
+		return nil
+	}
+	var txt []string
+	k := 0
+	for r > 0 {
+		c := min(r-1, 255)
+		var sb strings.Builder
+		for ; sb.Len() < c; k++ {
+			h := sha256.Sum256([]byte(fmt.Sprintf("%s|x|%d", name, k)))
+			sb.WriteString(fmt.Sprintf("%x", h[:]))
+		}
+		txt = append(txt, sb.String()[:c])
+		r -= 1 + c
+	}
+	return []dns.RR{&dns.TXT{Hdr: dns.RR_Header{Name: name, Rrtype: dns.TypeTXT, Class: dns.ClassINET, Ttl: 300}, Txt: txt}}
+}
+
 func answerRRs(name string, qtype uint16) []dns.RR {
 	name = strings.ToLower(name)
 	h := sha256.Sum256([]byte(name))
+	if n := exactBody(name); n > 0 && qtype == dns.TypeTXT {
+		return exactTXT(name, n)
+	}
 	switch qtype {
 	case dns.TypeA:
 		return []dns.RR{
@@ -109,6 +156,9 @@ func answerRRs(name string, qtype uint16) []dns.RR {
 
 // sizeClassOfAnswer is the class of the reply f(question) makes.
 func sizeClassOfAnswer(name string, qtype uint16) string {
+	if n := exactBody(strings.ToLower(name)); n > 0 && qtype == dns.TypeTXT {
+		return sizeClassOfLen(n)
+	}
 	if qtype == dns.TypeTXT {
 		switch {
 		case strings.HasPrefix(strings.ToLower(name), "g-"):
